@@ -450,13 +450,15 @@ def split_param(obs, name, only_if=None):
     return out
 
 
-def with_history(obs, mode, kmax=4, narrow=None):
+def with_history(obs, mode, kmax=4, narrow=None, override=None):
     """The same members, but the observed simulate() follows an earlier call (see simcore.run_sim_history)."""
     out = []
     for ob in obs:
         pr = ob["params"]
         if narrow:
             pr = [[n, max(lo, narrow[n][0]), min(hi, narrow[n][1])] if n in narrow else [n, lo, hi] for n, lo, hi in pr]
+        if override:
+            pr = [[n, override[n][0], override[n][1]] if n in override else [n, lo, hi] for n, lo, hi in pr]
         out.append(dict(ob, harness="sim_history", name="%s/%s" % (mode, ob["name"]), cube=dict(ob["cube"], mode=mode), params=pr + [["k", 0, kmax]]))
     return out
 
@@ -499,7 +501,8 @@ def _obligations_for(prop, tier):
             obs += with_history(fj, "json-resume", 4, {"f11": (1, 1), "a1": (-1, -1), "fa0": (-1, 0), "s00": (1, 2), "f00": (1, 2), "w0": (2, 3), "w1": (1, 2), "cap": (1, 2)})
         if prop == "C06":
             pj = [ob for ob in p_product("F1", thorough, H=12 if thorough else 8, timeout=900 if thorough else 150) if "wps=1" in ob["name"] or thorough]
-            obs += with_history(pj, "cut+state", 3, {"cap0": (1, 2), "cap1": (1, 2), "fs0": (1, 1), "fs1": (1, 1)})
+            # enough work for the first run to be cut while the component is still placed
+            obs += with_history(pj, "cut+state", 3, {"cap0": (1, 2), "cap1": (1, 2), "fs0": (1, 1), "fs1": (1, 1)}, override={"w0": (3, 5)})
             obs += p_product("N2", thorough, H=12 if thorough else 8, timeout=900 if thorough else 150)
             obs += p_nested_release(thorough, timeout=900 if thorough else 150)
         if prop == "C06":
